@@ -3,7 +3,7 @@
    `run` = whole manifest). *)
 From Coq Require Import List ZArith NArith Bool.
 Import ListNotations.
-Require Import RV.Model.C10_ProofLock RV.Model.C09_Worktop RV.Proof.C09_Worktop RV.Proof.C09_Conservation.
+Require Import RV.Model.C10_ProofLock RV.Model.C09_Worktop RV.Proof.C09_Worktop RV.Proof.C09_Conservation RV.Proof.C09_ConservationNF.
 Open Scope N_scope.
 
 (* Taking an amount from the worktop succeeds only if the worktop's bucket of that resource holds
@@ -73,12 +73,31 @@ Theorem C09_step_conserves : forall s o s' r, step s o = Ok s' -> (hold s' r = h
 Proof. exact step_conserves. Qed.
 Theorem C09_conservation : forall s ops s' r, run s ops = Done s' ->
   (hold s' r = hold s r)%Z /\
-  (vsum r (vaults s') + fsum r (burnedf s') = vsum r (vaults s) + bsum r (buckets s) + fsum r (burnedf s))%Z.
+  (C09_Conservation.vsum r (vaults s') + fsum r (burnedf s') = C09_Conservation.vsum r (vaults s) + C09_Conservation.bsum r (buckets s) + fsum r (burnedf s))%Z.
 Proof.
   intros s ops s' r H. pose proof (run_conserves _ _ _ _ r H) as Hc. split; [exact Hc|].
-  destruct (run_from_done _ _ _ _ H) as (Hb & _). unfold hold in Hc. rewrite Hb in Hc. cbn [bsum] in Hc.
+  destruct (run_from_done _ _ _ _ H) as (Hb & _). unfold hold in Hc. rewrite Hb in Hc. cbn [C09_Conservation.bsum] in Hc.
   rewrite <- Hc. ring.
 Qed.
+
+(* Conservation (non-fungible ids): `holdI i s r` = number of occurrences of id i in the account
+   vault of r (liquid ids + lock table), in every bucket node of r and in the burned tally of r.
+   If i occurs at most once (ids are unique; true for the initial state), every successful
+   instruction and the end of the transaction leave the count unchanged: the id is never
+   duplicated and never vanishes; after a successful transaction it is in the vault or burned. *)
+Theorem C09_nf_step_conserves : forall i s o s' r, (holdI i s r <= 1)%Z -> step s o = Ok s' ->
+  (holdI i s' r = holdI i s r)%Z.
+Proof. exact step_conserves_id. Qed.
+Theorem C09_nf_conservation : forall i s ops s' r, (holdI i s r <= 1)%Z -> run s ops = Done s' ->
+  (holdI i s' r = holdI i s r)%Z /\
+  (C09_ConservationNF.vsum i r (vaults s') + nsum i r (burnedn s') = holdI i s r)%Z.
+Proof.
+  intros i s ops s' r Hle H. pose proof (run_conserves_id i _ _ _ _ r Hle H) as Hc. split; [exact Hc|].
+  destruct (run_from_done _ _ _ _ H) as (Hb & _). unfold holdI in Hc at 1. rewrite Hb in Hc. cbn [C09_ConservationNF.bsum] in Hc.
+  rewrite <- Hc. ring.
+Qed.
+Theorem C09_nf_initially_unique : forall i f0 f1 ids r, (holdI i (init f0 f1 ids) r <= 1)%Z.
+Proof. exact init_unique. Qed.
 
 Example C09_nonvacuous :
   let s0 := init 1000 500 [1; 2; 3] in
@@ -90,6 +109,9 @@ Example C09_nonvacuous :
   /\ run s0 [OWithdraw 0 10; OTakeFromWorktop 0 10; ODeposit 0; ODeposit 0] = Failed 3 EBucketNotFound.
 Proof. repeat split; try (eexists; vm_compute; reflexivity); vm_compute; reflexivity. Qed.
 
+Print Assumptions C09_nf_step_conserves.
+Print Assumptions C09_nf_conservation.
+Print Assumptions C09_nf_initially_unique.
 Print Assumptions C09_step_conserves.
 Print Assumptions C09_conservation.
 Print Assumptions C09_take_bounded.
